@@ -36,3 +36,7 @@ package lib
 //@   ensures e != nil
 //@ lib func fmt.Errorf(format string, a []any) (e error)
 //@   ensures e != nil
+
+//@ lib func unicode.Is(rangeTab *unicode.RangeTable, r rune) (b bool)
+//@   pure
+//@   requires rangeTab != nil
